@@ -72,7 +72,24 @@ func Itoa(n int) string {
 // ExtSrc is the imported type package "ext" (directory name == package name).
 const ExtSrc = `package ext
 
-import "example.com/m/tr"
+import (
+	"example.com/m/deep/audit"
+	"example.com/m/tr"
+)
+
+// Record / Record2 hold a struct of a package that the home package does not import itself.
+type Record struct {
+	Stamp audit.Stamp
+	N     int
+}
+
+type Record2 struct {
+	Stamp audit.Stamp2
+	N     int
+}
+
+// InnerTwin has the same underlying type as Inner (convertible, not assignable).
+type InnerTwin Inner
 
 type MyInt int
 type MyStr string
@@ -237,6 +254,44 @@ type Rec2 struct {
 }
 `
 
+// AuditSrc is imported by package ext only: the home package reaches its types through ext.Record
+// but never imports it (so its types are named without qualifier by a naive type printer).
+const AuditSrc = `package audit
+
+type Stamp struct {
+	At  int
+	rev int
+}
+
+func (s *Stamp) SetRev(v int) { s.rev = v }
+
+type Stamp2 struct {
+	At  int64
+	rev int
+}
+`
+
+// HooksSrc / HooksV2Src: two packages that both declare "package hooks" and export a same-shaped hook.
+const HooksSrc = `package hooks
+
+import (
+	"example.com/m/ext"
+	"example.com/m/tr"
+)
+
+func Finalize(d *ext.Inner2, s *ext.Inner) { tr.Arg("hooks.Finalize", d, s); tr.Hit("hooks.Finalize") }
+`
+
+const HooksV2Src = `package hooks
+
+import (
+	"example.com/m/ext"
+	"example.com/m/tr"
+)
+
+func Finalize(d *ext.Inner2, s *ext.Inner) { tr.Arg("hooksv2.Finalize", d, s); tr.Hit("hooksv2.Finalize") }
+`
+
 // KnownPkgs maps the qualifier used in home-context type expressions to the import it needs.
 var KnownPkgs = []struct{ Qual, Alias, Path string }{
 	{"ext", "", ModulePath + "/ext"},
@@ -246,6 +301,8 @@ var KnownPkgs = []struct{ Qual, Alias, Path string }{
 	{"am", "am", ModulePath + "/a/model"},
 	{"bm", "bm", ModulePath + "/b/model"},
 	{"oh", "oh", ModulePath + "/other/home"},
+	{"hooks", "", ModulePath + "/hooks"},
+	{"hooksv2", "hooksv2", ModulePath + "/hooks/v2"},
 }
 
 // LocalZooSrc holds the local named types of the home package (ordinary build).
@@ -287,6 +344,20 @@ type LInner2 struct {
 }
 
 type LEmpty struct{}
+
+// LTwin has the same underlying type as LInner (convertible under :typecast, not assignable).
+type LTwin LInner
+
+// Stamp / Stamp2 are named like the types of package deep/audit and have the same unexported member.
+type Stamp struct {
+	At  int
+	rev int
+}
+
+type Stamp2 struct {
+	At  int64
+	rev int
+}
 
 // LDeep / LDeep2 nest a struct inside a struct (three-segment destination paths).
 type LDeep struct {
@@ -414,6 +485,12 @@ var Alphabet = []TypeAtom{
 	{"oh.Rec", "", "struct-layout-same-package-name"},
 	{"oh.Rec2", "", "struct-layout-same-package-name"},
 	{"LForeign", "", "struct-local-foreign-underlying"},
+	{"LTwin", "", "struct-local-twin"},
+	{"ext.InnerTwin", "InnerTwin", "struct-imported-twin"},
+	{"Stamp", "", "struct-local-same-name-as-indirect"},
+	{"Stamp2", "", "struct-local-same-name-as-indirect"},
+	{"ext.Record", "Record", "struct-imported-with-indirect-member"},
+	{"ext.Record2", "Record2", "struct-imported-with-indirect-member"},
 	{"LDeep", "", "struct-local-deep"},
 	{"LDeep2", "", "struct-local-deep"},
 	{"LInnerG", "", "struct-local-getter-names"},
